@@ -382,18 +382,23 @@ def same(a, b, aspects):
     return all(a[k] == b[k] for k in aspects if k != "error")
 
 
+QUIRK_KEYS = {"uniqWeak": "gnu-unique-ranked-as-weak",
+              "weakZero": "weak-ref-zero-when-name-owner-not-loaded",
+              "wrapNoDef": "wrap-ignored-without-wrapper-definition"}
+
+
 def divergence_key(rec, w, m, aspects):
     """Stable key of a mismatch between wild and the rule."""
     if same(w, m, aspects):
         if rec.get("causes"):
-            return "quirk:" + "+".join(sorted(rec["causes"]))
+            return "+".join(sorted(QUIRK_KEYS[c] for c in rec["causes"]))
         if rec.get("loadDiv"):
             return "shadowed-lazy-definition"
         return "as-modelled-unclassified"
     return "unexpected"
 
 
-def replay_one(rec, d, idx, seed, aspects, reference):
+def replay_one(rec, d, idx, seed, aspects, reference, skip_load_divergent=False):
     """Returns dict(status=..., ...). reference: 'both' | 'ld' | 'lld'."""
     cfg = {"files": rec["files"], "opts": {"allowMultiple": rec["opts"]["allowMultiple"],
                                            "undef": sorted(rec["opts"]["undefs"]),
@@ -408,7 +413,7 @@ def replay_one(rec, d, idx, seed, aspects, reference):
     W, G, L = (norm_outcome(res[k], cfg) for k in ("wild", "ld", "lld"))
     info = {"idx": idx, "line": line, "variant": variant, "threads": threads, "env": env, "cfg": cfg,
             "expect": R, "model": M, "wild": W, "ld": G, "lld": L,
-            "flags": {k: rec.get(k) for k in ("causes", "loadDiv", "shadow", "commonLazy")},
+            "flags": {k: rec.get(k) for k in ("causes", "loadDiv", "shadow", "commonLazy", "visShared")},
             "raw": {k: {kk: vv for kk, vv in v.items() if kk in ("rc", "msg", "needed", "error")} for k, v in res.items()}}
     if res["wild"]["error"] in ("crash", "hang", "other") or res["wild"]["error"].startswith("bad-output"):
         info["status"] = "wild-abnormal"
@@ -428,12 +433,21 @@ def replay_one(rec, d, idx, seed, aspects, reference):
         info["status"] = "spec-vs-oracles" if (refs_agree and reference == "both") or \
             (reference == "ld" and not okG) or (reference == "lld" and not okL) else "undecided"
         return info
+    if rec.get("visShared"):
+        # a hidden/protected reference + a shared definition: which regular definition is fetched instead is
+        # not decided by the property text and the linkers differ
+        info["status"] = "unspecified"
+        return info
+    if skip_load_divergent and rec.get("loadDiv") and not rec.get("causes") and same(W, M, aspects):
+        info["status"] = "load-divergent"       # a consequence of which members were loaded: C03's matter
+        return info
     info["status"] = "mismatch"
     info["key"] = divergence_key(rec, W, M, aspects)
     return info
 
 
-def replay_records(ctx, prop, records, aspects, reference, jobs=8, known_oracle_classes=None, label=""):
+def replay_records(ctx, prop, records, aspects, reference, jobs=8, known_oracle_classes=None, label="",
+                   skip_load_divergent=False):
     """Replay records (list of (idx, rec)). Reports violations through ctx.verdict. Returns stats."""
     from .common import scratch
     stats = {"replayed": 0, "ok": 0, "ok_oracles_differ": 0, "mismatch": {}, "undecided": 0, "spec_vs_oracles": 0,
@@ -445,7 +459,7 @@ def replay_records(ctx, prop, records, aspects, reference, jobs=8, known_oracle_
             d = top / f"c{idx}"
             d.mkdir()
             try:
-                info = replay_one(rec, d, idx, ctx.seed, aspects, reference)
+                info = replay_one(rec, d, idx, ctx.seed, aspects, reference, skip_load_divergent)
             except ToolError as e:
                 info = {"status": "tool-failure", "idx": idx, "error": str(e)}
             info["dir"] = d
@@ -463,8 +477,8 @@ def replay_records(ctx, prop, records, aspects, reference, jobs=8, known_oracle_
                 elif st == "ok-oracles-differ":
                     stats["ok"] += 1
                     stats["ok_oracles_differ"] += 1
-                elif st == "undecided":
-                    stats["undecided"] += 1
+                elif st in ("undecided", "unspecified", "load-divergent"):
+                    stats[st.replace("-", "_")] = stats.get(st.replace("-", "_"), 0) + 1
                 elif st == "spec-vs-oracles":
                     cls = (known_oracle_classes(info) if known_oracle_classes else None)
                     if cls:
@@ -495,3 +509,88 @@ def replay_records(ctx, prop, records, aspects, reference, jobs=8, known_oracle_
         raise ToolError(f"{len(spec_bugs)} configuration(s) where GNU ld and lld agree with each other but not with the "
                         f"rule (spec bug), first: {json.dumps({k: ex[k] for k in ('line', 'expect', 'ld', 'lld', 'wild')})}")
     return stats
+
+
+# ---------------------------------------------------------------------------------------------
+# TLC runs of MCSymRes shared by c02 / c03 / c33
+
+EXPECTED_ACTIONS = ["Start", "PeekAny", "TakeAny", "Finish"]
+
+
+def tlc_records(cfg, timeout, workers=8):
+    """Exhaustive TLC run of one bounded family; returns (result, deduplicated REPLAY records).
+    (-coverage makes TLC an order of magnitude slower on this module, so action coverage is
+    established separately by coverage_run on a tiny family.)"""
+    r = _tlc().run_tlc("MCSymRes", cfg, workers=workers, timeout=timeout, coverage=False)
+    if r.timed_out:
+        raise ToolError(f"TLC timed out on {cfg}")
+    if not r.ok:
+        raise ToolError(f"SymRes model check failed ({cfg}): {r.violated} {r.error_text}\n{r.out[-3000:] if not r.trace_text else r.trace_text[:3000]}")
+    seen, recs = set(), []
+    for rec in r.records:
+        k = repr(sorted(rec["files"], key=repr) if False else rec["files"]) + repr(rec["opts"])
+        if k in seen:
+            continue
+        seen.add(k)
+        recs.append(rec)
+    if not recs:
+        raise ToolError(f"no REPLAY records from {cfg}")
+    return r, recs
+
+
+def coverage_run(cfg="mc/SymRes_cover.cfg"):
+    r = _tlc().run_tlc("MCSymRes", cfg, workers=4, timeout=600, coverage=True)
+    if not r.ok:
+        raise ToolError(f"coverage run failed: {r.violated} {r.error_text}")
+    missing = _tlc().zero_coverage_actions(r, EXPECTED_ACTIONS)
+    if missing:
+        raise ToolError(f"vacuous model: actions never taken: {missing}")
+    return {"cfg": cfg, **r.summary(), "action_coverage": {a: r.coverage[a][1] for a in EXPECTED_ACTIONS}}
+
+
+def racy_must_fail(cfg="mc/SymRes_racy.cfg"):
+    r = _tlc().run_tlc("MCSymRes", cfg, workers=4, timeout=600, coverage=False)
+    if r.ok or r.violated != "LoadedOnce":
+        raise ToolError(f"racy variant of the take was NOT caught (violated={r.violated}): invariants are vacuous")
+    return {"cfg": cfg, "expected_violation": r.violated, "states_to_find": r.distinct}
+
+
+def sample(recs, seed, k):
+    return [(i, rec) for i, rec in enumerate(recs) if (i + seed) % k == 0]
+
+
+
+
+def _tlc():
+    from . import tlc
+    return tlc
+
+
+def run_plan(ctx, prop, plan, aspects, reference, oracle_known=None, skip_load_divergent=False):
+    """plan: [(cfg, tlc_timeout, sample_every_k)].  Returns the coverage dict."""
+    from .common import build_wild, trim_samples
+    build_wild()
+    private_wild()
+    cov = {"samples": []}
+    states = trans = replayed = 0
+    runs = []
+    for cfg, to, k in plan:
+        r, recs = tlc_records(cfg, to)
+        states += r.distinct
+        trans += r.generated
+        chosen = sample(recs, ctx.seed, k)
+        log(f"{cfg}: {r.distinct} states ({r.wall:.0f}s), {len(recs)} configurations, replaying {len(chosen)}")
+        st = replay_records(ctx, prop, chosen, aspects, reference, jobs=8, known_oracle_classes=oracle_known,
+                            skip_load_divergent=skip_load_divergent, label="-" + Path(cfg).stem.split("_", 1)[-1])
+        replayed += st["replayed"]
+        runs.append({"cfg": cfg, **r.summary(), "configurations": len(recs),
+                     **{kk: vv for kk, vv in st.items() if kk != "samples"}})
+        cov["samples"] += st["samples"]
+    runs.append(coverage_run())
+    runs.append(racy_must_fail())
+    cov["states"] = states
+    cov["transitions"] = trans
+    cov["traces_validated_against_impl"] = replayed
+    cov["tlc_runs"] = runs
+    cov["samples"] = trim_samples(cov["samples"], 3, 900)
+    return cov
